@@ -10,6 +10,7 @@
 -/
 import SgeProofs.Lemmas.BetIndex
 import SgeProofs.Properties.C08
+import SgeProofs.Properties.C03
 namespace Sge.Core
 open Sge Sge.Genesis
 
@@ -206,6 +207,30 @@ theorem c03_settled_in_one_endblock (p : Params) (bal : List (Nat × Int)) (h t 
   rcases settled_origin s0 (betIdx_init p bal h t) ops b hb hst with h0 | h1
   · cases h0
   · exact h1
+
+/-- C03.j  `Settle(creator, uid)` first finds a bet by uid and then reads the bet stored under (creator, id of that
+    bet). In a state satisfying the invariant — so in every reachable state — the two look-ups land on the same bet:
+    called with the uid and creator of a pending-index entry, `Settle` settles exactly the bet that entry lists,
+    stamps it with the current height, deletes that entry and lists the bet as settled under (height, id). -/
+theorem c03_settle_targets_listed_bet {s s' : State} (hI : BetIdx s) (x : Nat × Nat × Nat × Nat) (hx : x ∈ s.pending)
+    (h : settleBet s x.2.2.2 x.2.2.1 = some s') :
+    ∃ b0 ∈ s.bets, x = (b0.market, b0.id, b0.uid, b0.creator) ∧ b0.status ≠ BS_SETTLED ∧ ∃ res,
+      lookup Bet.key [b0.creator, b0.id] s'.bets =
+        some { b0 with status := BS_SETTLED, result := res, settleHeight := s.height } ∧
+      x ∉ s'.pending ∧ (s.height, b0.id, b0.uid, b0.creator) ∈ s'.settled := by
+  obtain ⟨b0, hb0, hu, _, hns, s2, res, e, rfl⟩ := settleBet_target hI h
+  obtain ⟨b, hb, _, rfl⟩ := hI.ofPend x hx
+  have hbb : b = b0 := hI.uidInj b hb b0 hb0 hu.symm
+  subst hbb
+  refine ⟨b, hb0, rfl, hns, res, ?_, ?_, ?_⟩
+  · have := markSettled_lookup s2 { b with status := BS_SETTLED, result := res }
+    rw [e.2.2.2.2] at this
+    exact this
+  · intro hin
+    have := (mem_remove_iff ikey [b.market, b.id] _ s2.pending).mp hin
+    simp [ikey] at this
+  · rw [← e.2.2.2.2]
+    exact (mem_upsert ikey _ _ s2.settled).mpr (Or.inl rfl)
 
 -- ---------------------------------------------------------------------------------------------
 -- non-vacuity: a concrete history in which bets are accepted, one is rejected, and both accepted ones settle,
